@@ -40,6 +40,11 @@ func (c *Conversation) receiveUnit(m ValidMessage, forgetFragments bool) (plain 
 		c.messageEvent(MessageEventReceivedMessageUnrecognized)
 	case msgGuessDHCommit, msgGuessDHKey, msgGuessRevealSig, msgGuessSignature, msgGuessData:
 		plain, messagesToSend, err = c.receiveEncoded(encodedMessage(message))
+		if err == errReceivedMessageForOtherInstance {
+			// not meant for this conversation: it must not disturb a fragment stream of our peer either
+			shouldForgetFragment = false
+			err = nil
+		}
 	}
 
 	if shouldForgetFragment && forgetFragments {
@@ -149,9 +154,6 @@ func (c *Conversation) receiveDecoded(message messageWithHeader) (plain MessageP
 
 	var messageHeader, messageBody []byte
 	if messageHeader, messageBody, err = c.parseMessageHeader(message); err != nil {
-		if err == errReceivedMessageForOtherInstance {
-			err = nil
-		}
 		return
 	}
 
